@@ -288,16 +288,27 @@ func (n *AbsfsNFS) UpdatePolicyOptions(newPolicy PolicyOptions) error {
 	n.policy.Store(&snapshot)
 
 	// Update rate limiter while still holding the write lock (H2 fix)
+	n.mu.Lock()
 	if newPolicy.EnableRateLimiting && newPolicy.RateLimitConfig != nil {
 		n.rateLimiter = NewRateLimiter(*newPolicy.RateLimitConfig)
 	} else if !newPolicy.EnableRateLimiting {
 		n.rateLimiter = nil
 	}
+	n.mu.Unlock()
 
 	// Resume accepting requests
 	n.policyRWMu.Unlock()
 
 	return nil
+}
+
+// currentRateLimiter returns the rate limiter in force (nil when disabled).
+// Connection loops call it per request so that a policy update also applies
+// to connections that were opened before it.
+func (n *AbsfsNFS) currentRateLimiter() *RateLimiter {
+	n.mu.RLock()
+	defer n.mu.RUnlock()
+	return n.rateLimiter
 }
 
 // getStructuredLogger returns the current structured logger safely.
